@@ -179,9 +179,18 @@ def run(chk, prog, tier):
                     if l.get("kind") == "MemberExpr" and l.get("name") == "offset" and r.get("kind") == "CallExpr" and callee_name(r) == roles.driver:
                         okk = True
             chk.require(okk, "E4", "E4/store/%s" % fn, loc_str(f), "%s stores the driver's result into <instance>->offset" % fn, "no such store")
+    # growth in the middle of a call keeps the code emitted so far (see C08)
+    from checks import C08
+    lib_ = prog.lib_functions()
+    bw = sorted(fn for fn, f in lib_.items() if fn != "asm_create_instance" and
+                any(a.owner == "assemblyline" and a.field == "buffer" and a.ctx in ("w", "rw") and strip(a.node).get("kind") == "MemberExpr"
+                    for a in EFF.accesses(prog.body(f))) and
+                not (f.get("storageClass") == "static" and EFF.callers_of(roles.g, fn) == ["asm_create_instance"]))
+    C08.preserve_rule(chk, prog, roles, bw)
     # the line splitter: a terminator ends the line, what follows it is left for the next call; progress
     from valib import scan as SC
     SC.noswallow_rule(chk, prog, roles)
+    SC.room_only_when_emitting_rule(chk, prog, roles)
     SC.progress_rule(chk, prog, roles)
     SC.driver_advance_rule(chk, prog, roles)
     chk.explanation = (
